@@ -10,6 +10,7 @@ fn content(file: &str, big: bool) -> Vec<u8> {
     let (byte, len) = match file {
         "F" => (b'F', if big { 1 << 20 } else { 1025 }),
         "F2" => (b'2', 7),
+        "F3" => (b'3', if big { 1 << 20 } else { 1025 }),
         "G" => (b'G', 0),
         "DF" => (b'd', 1024),
         "DH" => (b'h', 3000),
@@ -138,7 +139,7 @@ fn entries_of(map: &std::collections::BTreeMap<in_toto::models::VirtualTargetPat
               algs: &[&str], class: usize, big: bool) -> (Vec<Value>, bool) {
     // (algorithm, digest) -> file: a digest filed under the wrong algorithm identifies nothing
     let mut table: HashMap<(&str, String), &str> = HashMap::new();
-    for f in ["F", "F2", "G", "DF", "DH"] {
+    for f in ["F", "F2", "F3", "G", "DF", "DH"] {
         table.insert(("sha256", hexd(&digest::SHA256, &content(f, big))), f);
         table.insert(("sha512", hexd(&digest::SHA512, &content(f, big))), f);
     }
@@ -258,6 +259,13 @@ pub fn run(scn: &Value) -> Value {
             "create_g" => format!(": > '{}'", t("t/g")),
             "delete_f" => format!("rm -f '{}'", t("t/f")),
             "modify_f" => format!("if [ -e '{0}' ]; then printf 2222222 > '{0}'; fi", t("t/f")),
+            // same length, other bytes, modification time restored (the reference file lies outside the recorded tree)
+            "rewrite_f" => format!(
+                "if [ -e '{0}' ]; then touch -r '{0}' '{1}'; head -c {2} /dev/zero | tr '\\0' 3 > '{0}'; touch -r '{1}' '{0}'; rm -f '{1}'; fi",
+                t("t/f"),
+                root.join("stamp").display(),
+                content("F3", big).len()
+            ),
             "create_in_d" => format!("mkdir -p '{}'; head -c 3000 /dev/zero | tr '\\0' h > '{}'", t("t/d"), t("t/d/h")),
             _ => "true".to_string(),
         };
